@@ -31,7 +31,7 @@ DOMAIN = {
     "stochastic_ternary": {"alpha": [2.0, "auto", "auto_po2"], "threshold": [0.7], "temperature": [4.0],
                            "use_real_sigmoid": [False], "number_of_unrolls": [2]},
     "binary": {"use_01": [True], "alpha": [2.0, "auto", "auto_po2"], "use_stochastic_rounding": [True],
-               "scale_axis": [0], "elements_per_scale": [2], "min_po2_exponent": [-1], "max_po2_exponent": [0]},
+               "scale_axis": [0, [0, 1]], "elements_per_scale": [2], "min_po2_exponent": [-1], "max_po2_exponent": [0]},
     "stochastic_binary": {"alpha": [2.0, "auto", "auto_po2"], "temperature": [2.0], "use_real_sigmoid": [False]},
     "quantized_relu": {
         "bits": [4, 3], "integer": [1, 2], "use_sigmoid": [1], "negative_slope": [0.25],
